@@ -431,10 +431,13 @@ func (d *drv) request(r *Req, cv bool) {
 	d.byGo[goid()] = r.Q
 	d.reqs[r.Q] = r
 	d.mu.Unlock()
-	if r.Via == "em" && len(r.Keys) > 1 {
+	if (r.Via == "em" || r.Via == "emresp") && len(r.Keys) > 1 {
 		r.Keys = r.Keys[:1] // the two-object entry point injects the request and one more object
 	}
 	keys := append([]string{"req"}, r.Keys...)
+	if r.Via == "emresp" {
+		keys = append([]string{}, r.Keys...) // only the second object of the two-object entry point is given
+	}
 	names := r.Names
 	tn := names
 	if tn == nil {
@@ -443,7 +446,7 @@ func (d *drv) request(r *Req, cv bool) {
 	if r.NoData {
 		keys = []string{}
 	}
-	fl := r.Fail != "" || d.expectPeekFail(r) || r.NoData
+	fl := r.Fail != "" || d.expectPeekFail(r) || r.NoData || r.Via == "emresp"
 	d.o.Emit(obs.Event{"ev": "arrive", "q": r.Q, "keys": keys, "names": tn, "fail": fl, "failmay": !fl && d.apiKeyMayBeGone(r),
 		"ord": d.orderOf(r.Method, r.Via)})
 	data := map[string]interface{}{"req": &Obj{Id: r.Q}}
@@ -475,7 +478,10 @@ func (d *drv) request(r *Req, cv bool) {
 				pv = x
 			}
 		}()
-		if c.Via == "em" {
+		if c.Via == "emresp" {
+			// ... with the first object left out: nothing named "req" is injected, every rule of the text fails
+			err, res = d.pool.ExecuteRulesWithSpecifiedEM("", nil, firstKey(r.Keys), firstVal(data, r.Keys))
+		} else if c.Via == "em" {
 			// the two-object entry point: request and response names
 			err, res = d.pool.ExecuteRulesWithSpecifiedEM("req", data["req"], firstKey(r.Keys), firstVal(data, r.Keys))
 		} else {
